@@ -264,6 +264,19 @@ func (w *work) judgeC06() {
 			c06Finding("must-mismatch:"+e.name, fmt.Sprintf("%s and %s build different objects from %s: %q / %q", e.plain, e.name, q(c.Text), trunc(p.printed, 120), trunc(o.printed, 120)), c, nil)
 		}
 	}
+	// corpus: texts that must be rejected (with a parse error: a fault is reported above)
+	for i := range entries {
+		fam := "X"
+		switch {
+		case strings.Contains(entries[i].name, "Filter"):
+			fam = "F"
+		case strings.Contains(entries[i].name, "Script") || strings.Contains(entries[i].name, "Equation"):
+			fam = "S"
+		}
+		if strings.Contains(c.Reject, fam) && !res[i].isErr && !res[i].isPanic {
+			c06Finding("corpus-accepted:"+entries[i].name, fmt.Sprintf("%s accepts %s, which the corpus lists as malformed", entries[i].name, q(c.Text)), c, nil)
+		}
+	}
 	// the two spellings of the same entry point
 	a, b := byName["jp.ParseString"], byName["jp.Parse"]
 	if a.isErr != b.isErr || a.errMsg != b.errMsg || a.printed != b.printed {
